@@ -22,10 +22,11 @@ def mk(entry, split, p, os_, mwma, fseq, fpar, mink, minn, size, seqs):
 def parse(line):
     t = list(map(int, line.split()))
     entry, split, p, os_, mwma, fseq, fpar, mink, minn, size, k = t[:11]
+    profile, mwma = mwma // 10, mwma % 10
     seqs = []; i = 11
     for _ in range(k):
         n = t[i]; seqs.append(t[i + 1:i + 1 + n]); i += 1 + n
-    return dict(entry=entry, split=split, p=p, os=os_, mwma=mwma, fseq=fseq, fpar=fpar, mink=mink, minn=minn,
+    return dict(entry=entry, split=split, p=p, os=os_, mwma=mwma, profile=profile, fseq=fseq, fpar=fpar, mink=mink, minn=minn,
                 size=size, seqs=seqs, total=sum(map(len, seqs)), stable=entry in (1, 3))
 
 def goes_parallel(c):
@@ -85,6 +86,35 @@ def gen_switch(rng, out):
     split = rng.below(2)
     out.append(mk(rng.below(4), split, p, rng.choice([1, 2, 10]), rng.below(4), fseq, fpar, mink, minn, size, seqs))
 
+SAN_FLAGS = ["-std=c++17", "-O1", "-g1", "-fsanitize=address,undefined", "-fno-sanitize-recover=all", "-fno-omit-frame-pointer"]
+exe, log = ck.build_cpp("c07_harness", ["harness/C07/pmwm_harness.cpp"], repo_sources=REPO_SRC, flags=SAN_FLAGS)
+drv, dlog = ck.ocaml_driver("C07")
+HW = 1
+if exe is not None:
+    _rc, _o = verif.sh([exe, "--hw"], timeout=20)
+    try: HW = max(1, int(_o.strip()))
+    except ValueError: HW = 1
+
+PROFILE_NAMES = {0: "vector<pair>::iterator / Elem* / logging output / key-only less, all arguments explicit",
+                 1: "pair* / vector<Elem>::iterator / Elem* output",
+                 2: "deque<pair>::iterator / deque<Elem>::iterator / vector<Elem>::iterator output / key-only greater on descending inputs",
+                 3: "stateful non-default-constructible counting comparator",
+                 4: "comp, mwma, mwmsa and num_threads defaulted",
+                 5: "num_threads defaulted"}
+
+def assign_profile(rng, line):
+    """choose the API profile of a generated case (harness/C07/pmwm_harness.cpp): field mwma = profile*10 + MWMA"""
+    r = rng.below(100)
+    prof = 0 if r < 40 else 1 + (r - 40) // 12
+    if prof == 0: return line
+    t = line.split()
+    if prof == 4:                      # everything defaulted: MWMA_ALGORITHM_DEFAULT = LOSER_TREE_COMBINED, MWMSA_DEFAULT = EXACT, hardware_concurrency()
+        t[1] = "1"; t[2] = str(HW); t[4] = "1"
+    elif prof == 5:
+        t[2] = str(HW)
+    t[4] = str(prof * 10 + int(t[4]) % 10)
+    return " ".join(t)
+
 corpus = [l.strip() for l in open(os.path.join(verif.VERIF, "corpus", "C07", "cases.txt")) if l.strip() and not l.startswith("#")]
 cases = list(corpus)
 if ck.replay:
@@ -95,9 +125,36 @@ else:
     for _ in range(nrand): gen_random(rng, cases, False)
     for _ in range(nbig): gen_random(rng, cases, True)
     for _ in range(nsw): gen_switch(rng, cases)
+    cases = cases[:len(corpus)] + [assign_profile(rng, l) for l in cases[len(corpus):]]
 
 parsed = [parse(c) for c in cases]
 main_idx = list(range(len(parsed)))
+
+
+API_SURFACE = [
+ {"api": "tlx::parallel_multiway_merge / stable_parallel_multiway_merge / parallel_multiway_merge_sentinels / stable_parallel_multiway_merge_sentinels (seqs_begin, seqs_end, target, size, comp, mwma, mwmsa, num_threads), all arguments explicit", "called": True, "by": "profiles 0-3, every case draws the entry point at random"},
+ {"api": "the same four with num_threads defaulted (std::thread::hardware_concurrency(), read from the harness with --hw and written into the case so that the model uses the same p)", "called": True, "by": "profile 5"},
+ {"api": "the same four with comp, mwma, mwmsa and num_threads defaulted (std::less<value_type> via operator<, MWMA_ALGORITHM_DEFAULT, MWMSA_DEFAULT = MWMSA_EXACT)", "called": True, "by": "profile 4"},
+ {"api": "tlx::parallel_multiway_merge_base<Stable> (called directly)", "called": False, "by": "reached only through the four front ends (which instantiate both Stable values); a direct call adds no code path: the front ends forward all arguments unchanged"},
+ {"api": "multiway_merge_sampling_splitting<Stable> / multiway_merge_exact_splitting<Stable> / multiway_merge_detail::equally_split", "called": True, "by": "through mwmsa = MWMSA_SAMPLING (size = total) / MWMSA_EXACT and MWMSA_SAMPLING with size < total; equally_split with size < p, size = 0, size = p-1, p, p+1; not called directly (their chunks argument is the base routine's private vector)"},
+ {"api": "MultiwayMergeSplittingAlgorithm: MWMSA_SAMPLING | MWMSA_EXACT | MWMSA_DEFAULT (MWMSA_LAST is an enum end marker)", "called": True, "by": "field split = 0 | 1 | profile 4"},
+ {"api": "MultiwayMergeAlgorithm passed through to the per-thread merges: MWMA_LOSER_TREE | _COMBINED | _SENTINEL | MWMA_BUBBLE | default", "called": True, "by": "field mwma drawn at random in every case | profile 4"},
+ {"api": "num_threads argument: 1..32 incl. 1, > number of elements, > size; 0 is outside the documented domain (chunks[num_threads-1])", "called": True, "by": "all generators (p in {1,2,3,total-1,total,total+1,32,random 1..32})"},
+ {"api": "global switch parallel_multiway_merge_force_sequential (true/false, also together with force_parallel)", "called": True, "by": "gen_switch"},
+ {"api": "global switch parallel_multiway_merge_force_parallel", "called": True, "by": "all forced-parallel cases; gen_switch with it off"},
+ {"api": "global parallel_multiway_merge_minimal_k: k-1, k, k+1 around the number of sequences", "called": True, "by": "gen_switch"},
+ {"api": "global parallel_multiway_merge_minimal_n: size-1, size, size+1", "called": True, "by": "gen_switch"},
+ {"api": "global parallel_multiway_merge_oversampling: 1, 2, 10 (default); 0 is outside the domain (samples[0] of an empty vector)", "called": True, "by": "field os in every case"},
+ {"api": "sequence-of-pairs iterator: std::vector<pair>::iterator | pair* | std::deque<pair>::iterator (must be mutable: .first is advanced in place)", "called": True, "by": "profiles 0,3,4,5 | 1 | 2"},
+ {"api": "element iterators: raw pointer | std::vector<T>::iterator | std::deque<T>::iterator", "called": True, "by": "profiles 0,3,4,5 | 1 | 2"},
+ {"api": "output iterator (must be random access: target + target_position): logging random-access iterator class with proxy reference | T* | std::vector<T>::iterator", "called": True, "by": "profiles 0,3,4,5 | 1 | 2 (plain outputs: guard zones of 8 elements on both sides, windows not observable)"},
+ {"api": "DiffType = difference_type of the element iterators: std::ptrdiff_t", "called": True, "by": "all profiles"},
+ {"api": "DiffType other than std::ptrdiff_t (element iterator class with difference_type int)", "called": False, "by": "does not compile, with or without a matching pair iterator: the per-thread call hands std::vector<pair>::iterator to multiway_merge_4_combined, which mixes both difference_types in std::min(size, total_size - overhang) (multiway_merge.hpp:677); compile-time limitation, nothing to run"},
+ {"api": "comparator: key-only less (function object) | key-only greater on descending inputs | stateful non-default-constructible counting comparator | defaulted std::less<T>", "called": True, "by": "profiles 0,1,5 | 2 | 3 | 4"},
+ {"api": "element type: 12-byte record (key, sequence, position) compared by key only, so that stability and element identity are observable; sentinel element behind every sequence", "called": True, "by": "all profiles"},
+ {"api": "OpenMP variant of parallel_multiway_merge_base (#if defined(_OPENMP))", "called": False, "by": "the check builds without -fopenmp, as the repo's default build does; the std::thread variant is the one exercised (the two bodies are textually the same computation)"},
+ {"api": "regimes: no sequences | all sequences empty | empty sequences between non-empty ones | size = 0 | size < p | p > total | one long among short sequences | heavy duplicates across split points (1..3 distinct keys)", "called": True, "by": "corpus + generator shapes 0-3"},
+]
 
 # ------------------------------------------------------------------------------------------------ property verdict
 def fields(line):
@@ -132,6 +189,9 @@ def property_verdict(c, f):
             return "inputs advanced to %s but the elements written are not exactly the elements passed" % cur
     return None
 
+def g_windows(m):
+    return fields(m).get("win", "").count("+")
+
 def compare_model(c, f, m):
     """None if impl and model agree on what the model fixes."""
     if m.strip() == "UB": return "model reaches undefined behaviour (negative chunk / merge length)"
@@ -144,7 +204,7 @@ def compare_model(c, f, m):
     else:
         if [e[0] for e in triples(f.get("out", ""))] != [e[0] for e in triples(g.get("out", ""))]: return "output keys differ"
     if (c["stable"] or par) and f.get("cur") != g.get("cur"): return "cursors impl=%s model=%s" % (f.get("cur"), g.get("cur"))
-    if par and (f.get("fp") == "0" or c["split"] == 1 or c["size"] < c["total"]) and f.get("win") != g.get("win"): return "thread windows impl=%s model=%s" % (f.get("win"), g.get("win"))
+    if par and (f.get("fp") == "0" or c["split"] == 1 or c["size"] < c["total"]) and f.get("win") != "?" and f.get("win") != g.get("win"): return "thread windows impl=%s model=%s" % (f.get("win"), g.get("win"))
     return None
 
 # ------------------------------------------------------------------------------------------------ run
@@ -156,8 +216,6 @@ samples = []
 evaluations = 0
 tsan_note = "not run in this tier"
 
-exe, log = ck.build_cpp("c07_harness", ["harness/C07/pmwm_harness.cpp"], repo_sources=REPO_SRC)
-drv, dlog = ck.ocaml_driver("C07")
 
 def run_file(binary, lines, timeout):
     fn = os.path.join(ck.scratch, "cases_%d.txt" % len(lines))
@@ -213,6 +271,7 @@ else:
             if c["size"] == 0: stats["size_0"] += 1
             if c["p"] > c["total"]: stats["p_gt_total"] += 1
             stats["stable" if c["stable"] else "unstable"] += 1
+            stats["profile_%d" % c["profile"]] = stats.get("profile_%d" % c["profile"], 0) + 1
             if impl[idx] == "CRASH": continue
             f = fields(impl[idx])
             if f.get("fp") == "1" and c["split"] == 0 and c["size"] == c["total"]: stats["fp_rounding_cases"] += 1
@@ -228,14 +287,14 @@ else:
                              {"case": line, "impl": impl[idx][:600], "model": model[idx][:600], "correspondence": "C07/PMWM.v run_model vs harness/C07/pmwm_harness.cpp"}, no_input=True)
                 if ck.violations >= 4: break
                 continue
-            if par and f.get("win", "").count("+") >= 2: distinct.add(line)
+            if par and (f.get("win", "").count("+") >= 2 or (f.get("win") == "?" and g_windows(model[idx]) >= 2)): distinct.add(line)
         pick = [0, len(corpus), len(todo) // 2, len(todo) - 1]
         samples = [{"case": todo[i], "impl": impl[i][:300], "model": model[i][:300]} for i in pick if i < len(impl) and i < len(todo)]
 
     # --- ThreadSanitizer run (thorough tier): same harness, a slice of the parallel cases
     if ck.thorough() and not ck.replay:
         texe, tlog = ck.build_cpp("c07_tsan", ["harness/C07/pmwm_harness.cpp"], repo_sources=REPO_SRC,
-                                  flags=["-std=c++17", "-O1", "-g", "-fsanitize=thread"])
+                                  flags=["-std=c++17", "-O1", "-g1", "-fsanitize=thread"])
         if texe is None:
             tsan_note = "TSan build failed: " + tlog[-300:]
         else:
@@ -264,8 +323,12 @@ ck.finish({
     "input_distribution": stats,
     "exhaustive": False,
     "tsan": tsan_note,
+    "api_surface": API_SURFACE,
+    "api_profiles": PROFILE_NAMES,
+    "hardware_concurrency": HW,
 }, assumptions=[
     "the parametric theorems take multisequence_partition and the sequential multiway_merge_base as hypotheses (their specifications); coq/C07/Instances.v discharges them with the proved C08 / C05 models (closed theorems C07_closed_*); the extracted model run by the correspondence instantiates them with reference implementations read off the tagged stable merge",
+    "the sentinel entry points are called with an element of key INT_MAX behind every sequence (the model gets one sentinel per sequence with a key above all real ones)",
     "/repo contains the C08 tie-rule repair, fixes/C07/01,02 and the dispatch 'MWMSA_SAMPLING with size < total uses exact splitting' (all committed as fix: commits); the model is the repaired behaviour, the shipped selection survives as pmwm_base_shipped with its refutation lemma",
     "sample index of the sampling splitter is modelled by the exact integer floor; cases where the C++ double arithmetic rounds differently (flag fp=1, counted in input_distribution.fp_rounding_cases) are compared on everything except the per-thread windows",
     "std::sort/std::stable_sort of the samples and std::upper_bound are modelled by their specification",
